@@ -1,2 +1,3 @@
 import XoGen.TieSlot
 import XoGen.TieStrides
+import XoGen.TieChunk
